@@ -292,7 +292,7 @@ def _search_prop(pid, harnesses, functions, quick_heavy):
         # quick: the cheap harnesses only -- the heavy ones need 12-20 min each on an idle machine
         return [h for h in hs if h not in HEAVY]
     PROPS[pid] = dict(select=select, witnesses=[S + "c09_depth1_witness", S + "c08_driver_witness", S + "c09_quiescence_witness"],
-                      thorough_witnesses=[S + "c09_depth1_witness", S + "c08_driver_witness", S + "c09_quiescence_witness", S + "c06_entry_witness"], timeout=3300, jobs=4, tag="[%s]" % pid,
+                      thorough_witnesses=[S + "c09_depth1_witness", S + "c08_driver_witness", S + "c09_quiescence_witness", S + "c06_entry_witness"], timeout=3300, jobs=3, tag="[%s]" % pid,
                       stubbed_prefixes=[S], sys_replays=SYS, functions=functions, bounds=SEARCH_BOUNDS, assumptions=SEARCH_ASSUME, native_replay=True)
 
 
@@ -442,9 +442,9 @@ def _evidence(prop, tier, seed, cfg, fp, results, harnesses, witnesses, t0, n_vi
     decided = [r for r in hr if r.status in ("success", "failure")]
     obligations = sum(r.n_checks for r in hr)
     discharged = sum(r.n_passed for r in hr if r.status in ("success", "failure"))
-    nontrivial = sum(1 for r in decided if r.stats.get("vccs_remaining", 0) > 0)
-    solver_s = sum(r.stats.get("runtime_decision_procedure_s", 0.0) for r in hr)
-    symex_s = sum(r.stats.get("runtime_symex_s", 0.0) for r in hr)
+    nontrivial = sum(1 for r in decided if (r.stats.get("vccs_remaining") or 0) > 0)
+    solver_s = sum((r.stats.get("runtime_decision_procedure_s") or 0.0) for r in hr)
+    symex_s = sum((r.stats.get("runtime_symex_s") or 0.0) for r in hr)
     samples = [r.to_json() for r in hr[:3]] + [r.to_json() for r in hr if r.status != "success"][:5]
     coverage = {
         "evaluations": len(hr),
@@ -466,7 +466,7 @@ def _evidence(prop, tier, seed, cfg, fp, results, harnesses, witnesses, t0, n_vi
         "bounds": cfg["bounds"],
         "solver_time_s": round(solver_s, 1),
         "symex_time_s": round(symex_s, 1),
-        "vccs_sent_to_solver": sum(r.stats.get("vccs_remaining", 0) for r in hr),
+        "vccs_sent_to_solver": sum((r.stats.get("vccs_remaining") or 0) for r in hr),
         "encoding_source": fp,
         "exhaustive": False,
         "explanation": "bounded symbolic model checking of the real functions (compiled from /repo's working tree on this run); within the stated bounds the verdict covers every input value, outside them nothing is claimed",
